@@ -236,6 +236,66 @@ def run(tier):
                     failures.append(dict(kind='program', summary=f'copy(freeze=True) of a {shape} of a seeded reshuffle (n={n}, reps={reps}, seed {seed}) is not the first epoch {ref[0]}', config=dict(n=n, reps=reps, seed=seed, shape=shape)))
             except Exception as e:
                 failures.append(dict(kind='program', summary=f'{shape} of a seeded reshuffle raised {type(e).__name__}: {e}'[:300], config=dict(n=n, reps=reps, seed=seed, shape=shape)))
+        # (3') a frozen copy is frozen THROUGH every kind of stage: whatever sits above the per-epoch reshuffle, copy(freeze=True) of the
+        #      whole pipeline iterates in one fixed order; such pipelines do not claim to be indexable unless ds[0] works; string keys
+        #      reach through the random stage
+        above = ['map', 'parmap', 'filter', 'catch', 'prefetch1', 'batch', 'unbatch', 'concat', 'concat2', 'intersperse', 'zip', 'items',
+                 'bucket', 'lazyapply', 'local', 'tile', 'map_items', 'key_batchmap', 'cycle']
+        for st in above * (3 if big else 1):
+            n, seed = r.randint(5, 8), r.randint(0, 10 ** 6)
+            keyed = st in ('items', 'map_items') or r.random() < 0.5
+            base = ld.new({f'k{i}': i for i in range(n)} if keyed else list(range(n)))
+            rs = base.shuffle(True, rng=np.random.RandomState(seed))
+            other = ld.new({f'z{i}': 100 + i for i in range(n)} if keyed else list(range(100, 100 + n)))
+            try:
+                if st == 'map': d = rs.map(lambda x: x)
+                elif st == 'parmap': d = rs.map(lambda x: x, num_workers=2, buffer_size=2)
+                elif st == 'filter': d = rs.filter(lambda x: True)
+                elif st == 'catch': d = rs.catch()
+                elif st == 'prefetch1': d = rs.prefetch(1, 2)
+                elif st == 'batch': d = rs.batch(2)
+                elif st == 'unbatch': d = rs.batch(2).unbatch()
+                elif st == 'concat': d = rs.concatenate(other)
+                elif st == 'concat2': d = other.concatenate(rs)
+                elif st == 'intersperse': d = other.intersperse(rs)
+                elif st == 'zip': d = other.zip(rs)
+                elif st == 'items': d = rs.items()
+                elif st == 'map_items': d = rs.map(lambda x: x).items()
+                elif st == 'bucket': d = rs.map(lambda x: {'len': 1, 'v': x}).batch_dynamic_time_series_bucket(batch_size=2, len_key='len', max_padding_rate=0.5)
+                elif st == 'lazyapply': d = rs.apply(lambda x: x.map(lambda y: y), lazy=True)
+                elif st == 'local': d = rs.shuffle(True, rng=np.random.RandomState(seed + 1), buffer_size=1)
+                elif st == 'tile': d = rs.tile(2)
+                elif st == 'cycle': d = rs.cycle()
+                else: d = rs.batch(2).batch_map(lambda x: x)
+                fz = d.copy(freeze=True)
+                import itertools as _it
+                lim = 2 * n if st == 'cycle' else None
+                a, b, c = [repr(x) for x in _it.islice(fz, lim)], [repr(x) for x in _it.islice(fz, lim)], [repr(x) for x in _it.islice(fz, lim)]
+                if st == 'cycle' and a[:n] != a[n:]:
+                    b = ['passes differ']
+            except Exception as e:
+                failures.append(dict(kind='program', summary=f'copy(freeze=True) of a {st} stage above a seeded reshuffle raised {type(e).__name__}: {e}'[:300], config=dict(stage=st, n=n, seed=seed)))
+                continue
+            if not (a == b == c):
+                failures.append(dict(kind='program', summary=f'copy(freeze=True) of a {st} stage above a per-epoch reshuffle (n={n}, seed {seed}) is not frozen: {a} / {b} / {c}'[:600], config=dict(stage=st, n=n, seed=seed)))
+            for obj, what in ((d, st + ' above a reshuffle'), (rs, 'reshuffle')):
+                try:
+                    if obj.indexable:
+                        obj[0]
+                except Exception as e:
+                    failures.append(dict(kind='program', summary=f'{what} reports indexable=True but ds[0] raises {type(e).__name__}', config=dict(stage=st, n=n, seed=seed)))
+                    break
+            if keyed:
+                loc = base.shuffle(True, rng=np.random.RandomState(seed), buffer_size=3)
+                for obj, what in ((rs, 'reshuffle'), (loc, 'local shuffle'), (rs.map(lambda x: x + 1000), 'map above a reshuffle')):
+                    k = f'k{r.randrange(n)}'
+                    try:
+                        got = obj[k]
+                        want = int(k[1:]) + (1000 if 'map' in what else 0)
+                        if got != want:
+                            failures.append(dict(kind='program', summary=f'{what}[{k!r}] = {got!r}, the example stored under that key is {want}', config=dict(stage=st, n=n, seed=seed)))
+                    except Exception as e:
+                        failures.append(dict(kind='program', summary=f'{what}[{k!r}] raised {type(e).__name__}: {e}'[:300], config=dict(stage=st, n=n, seed=seed)))
         # (5) copy() preserves every configuration parameter of every stage
         for msg in copy_params(ld):
             failures.append(dict(kind='program', summary=msg, config={}))
